@@ -44,49 +44,26 @@ def sparseEntries (W : Mat N N K) : List (Fin N × Fin N × K) :=
 def weightSumD (W : Mat N N K) (F : Mat N D K) : DMat D D K :=
   (sparseEntries W).foldl (fun A e => rankUpdate2D A (F e.1) (F e.2.1) e.2.2) zeroD
 
-/-- `rhs += rhs.transpose().eval(); rhs /= 2` -/
-def halfSym (A : Mat D D K) : Mat D D K := fun i j => (A i j + A j i) / ((2 : Nat) : K)
-
 /-- `sum += x_iter` -/
 def featureSum (F : Mat N D K) : Vec D K := fun j => sumFin N fun r => F r j
 
-/-- `construct_neighborhood_preserving_eigenproblem`: `(lhs, rhs)` exactly as returned -/
-def npeProblemD (W : Mat N N K) (F : Mat N D K) : DMat D D K × DMat D D K :=
-  let rhs := sampleSumD F (fun _ => 1)
-  let lhs := weightSumD W F
-  (lhs, DMat.ofFn (halfSym rhs.get))
-
-/-- `construct_lltsa_eigenproblem` -/
-def lltsaProblemD (W : Mat N N K) (F : Mat N D K) : DMat D D K × DMat D D K :=
-  let s := DVec.ofFn (featureSum F)
-  let c : K := (-1) / (N : K)
-  let rhs := rankUpdate1D (sampleSumD F (fun _ => 1)) s.get c
-  let lhs := rankUpdate1D (weightSumD W F) s.get c
-  (lhs, DMat.ofFn (halfSym rhs.get))
-
-/-- `construct_locality_preserving_eigenproblem` (`L` sparse Laplacian, `Dg` the degree diagonal) -/
-def lppProblemD (L : Mat N N K) (Dg : Vec N K) (F : Mat N D K) : DMat D D K × DMat D D K :=
-  let rhs := sampleSumD F Dg
-  let lhs := weightSumD L F
-  (lhs, rhs)
-
-/-! #### the same three routines as they read after the proposed patch `fixes/F-LIN-TRI.diff`
-(the `rhs += rhsᵀ; rhs /= 2` lines removed, both matrices mirrored from their upper triangles before returning)
-and `fixes/F-LLTSA-CENTRE.diff` (the `lhs.rankUpdate(sum, -1/N)` line of LLTSA removed).
-Used only when a check is run against a patched scratch copy (`VERIF_C10_VARIANT=fixed`); they become the model
-proper once the patch is committed. -/
-
+/-- `lhs = DenseSymmetricMatrix(lhs.selfadjointView<Eigen::Upper>())`: the full symmetric matrix read off the
+    accumulated upper triangle (fix F-LIN-TRI; before it the pair was returned upper-only / half-symmetrised) -/
 def mirrorUpperD (A : DMat D D K) : DMat D D K := DMat.ofFn (Mat.upperView A.get)
 
-def npeProblemFixedD (W : Mat N N K) (F : Mat N D K) : DMat D D K × DMat D D K :=
+/-- `construct_neighborhood_preserving_eigenproblem`: `(lhs, rhs)` exactly as returned -/
+def npeProblemD (W : Mat N N K) (F : Mat N D K) : DMat D D K × DMat D D K :=
   (mirrorUpperD (weightSumD W F), mirrorUpperD (sampleSumD F (fun _ => 1)))
 
-def lltsaProblemFixedD (W : Mat N N K) (F : Mat N D K) : DMat D D K × DMat D D K :=
+/-- `construct_lltsa_eigenproblem`: `rhs` additionally gets `rankUpdate(sum, -1/N)` (centring); `lhs` does not
+    (fix F-LLTSA-CENTRE removed the spurious `lhs.rankUpdate(sum, -1/N)`) -/
+def lltsaProblemD (W : Mat N N K) (F : Mat N D K) : DMat D D K × DMat D D K :=
   let s := DVec.ofFn (featureSum F)
   let c : K := (-1) / (N : K)
   (mirrorUpperD (weightSumD W F), mirrorUpperD (rankUpdate1D (sampleSumD F (fun _ => 1)) s.get c))
 
-def lppProblemFixedD (L : Mat N N K) (Dg : Vec N K) (F : Mat N D K) : DMat D D K × DMat D D K :=
+/-- `construct_locality_preserving_eigenproblem` (`L` sparse Laplacian, `Dg` the degree diagonal) -/
+def lppProblemD (L : Mat N N K) (Dg : Vec N K) (F : Mat N D K) : DMat D D K × DMat D D K :=
   (mirrorUpperD (weightSumD L F), mirrorUpperD (sampleSumD F Dg))
 
 def npeProblem (W : Mat N N K) (F : Mat N D K) : Mat D D K × Mat D D K :=
